@@ -64,7 +64,11 @@ func CollateEquals(env Environment, s, t string) bool {
 
 // CollateTransform transforms the given string into it's form to be used for collation.
 func CollateTransform(env Environment, s string) string {
-	return transformers[env.InputCollation()](s)
+	transformer, found := transformers[env.InputCollation()]
+	if !found {
+		transformer = transformers[CollationDefault]
+	}
+	return transformer(s)
 }
 
 func replaceRunes(s string, mapping map[rune]rune) string {
